@@ -234,7 +234,7 @@ def prefixOK : List Slot → Bool
 /-- what the theorems need of a (regenerated) table; decidable, re-checked by the kernel on every run -/
 def TableOK (T : FileType) : Prop :=
   (T.slots.map (·.num)).Nodup ∧ T.slots.all (fun s => s.kind != .dropped) = true ∧ T.dropped = [] ∧
-  prefixOK T.slots = true ∧ 3 ≤ T.sortFrom ∧ T.slots.all (fun s => s.kind == s.decl) = true
+  prefixOK T.slots = true ∧ 3 ≤ T.sortFrom ∧ T.slots.all (fun s => s.kind == s.decl) = true ∧ T.declOnly = []
 
 instance (T : FileType) : Decidable (TableOK T) := by unfold TableOK; infer_instance
 
@@ -243,7 +243,7 @@ theorem slotOf_mem {T : FileType} {n : Nat} {s : Slot} (h : slotOf T n = some s)
   exact ⟨List.mem_of_find?_eq_some h, by simpa using List.find?_some h⟩
 
 theorem noDrop {T : FileType} (h : TableOK T) (n : Nat) : isDropped T n = false := by
-  obtain ⟨_, hk, hd, _, _, _⟩ := h
+  obtain ⟨_, hk, hd, _, _, _, _⟩ := h
   unfold isDropped
   split
   · rename_i s hs
@@ -266,7 +266,7 @@ theorem isSingleDecl_eq {T : FileType} (h : TableOK T) (n : Nat) : isSingleDecl 
   unfold isSingleDecl isSingle
   split
   · rename_i s hs
-    have := List.all_eq_true.mp h.2.2.2.2.2 s (slotOf_mem hs).1
+    have := List.all_eq_true.mp h.2.2.2.2.2.1 s (slotOf_mem hs).1
     rw [← (beq_iff_eq.mp this)]
   · rfl
 
@@ -419,7 +419,7 @@ theorem slotMsgs_default (T : FileType) (f : List μ) (s : Slot) (hk : s.kind = 
 theorem tableOK_slots {T : FileType} (h : TableOK T) : ∃ s0 s1 s2 rest, T.slots = s0 :: s1 :: s2 :: rest ∧
     s0.num = mesgNumFileId ∧ s0.kind = .value ∧ s1.num = mesgNumDeveloperDataId ∧ s1.kind = .list ∧
     s2.num = mesgNumFieldDescription ∧ s2.kind = .list ∧ ∀ s ∈ rest, s.kind ≠ .value := by
-  obtain ⟨_, _, _, hp, _, _⟩ := h
+  obtain ⟨_, _, _, hp, _, _, _⟩ := h
   match hs : T.slots with
   | [] => rw [hs] at hp; simp [prefixOK] at hp
   | [_] => rw [hs] at hp; simp [prefixOK] at hp
